@@ -44,8 +44,8 @@ CRASHES = []      # driver calls in which the library raised an exception that i
 
 
 def _library_crash(e):
-    """'<Class> at <file>:<line> in <function>' if the innermost frame of *e* is library code and the class is not one of the
-    library's own exception classes; None otherwise (then it is the harness that failed)."""
+    """'<Class> at <file>:<line> in <function>' if the innermost frame of *e* is library code; None otherwise (then it is the
+    harness that failed)."""
     src = os.path.realpath(os.environ.get('PENMAN_SRC', '/repo'))
     tb = e.__traceback__
     while tb.tb_next is not None:
@@ -53,8 +53,8 @@ def _library_crash(e):
     fn = os.path.realpath(tb.tb_frame.f_code.co_filename)
     if not fn.startswith(src + os.sep):
         return None
-    if type(e).__module__.startswith('penman'):
-        return None
+    # (the library's own exception classes included: a driver guards every call whose documented answer may be an error, so
+    # one that escapes was raised on an input on which the driver's property promises a result)
     return '%s at %s:%d in %s' % (type(e).__name__, os.path.relpath(fn, src), tb.tb_lineno, tb.tb_frame.f_code.co_name)
 
 
@@ -129,6 +129,9 @@ class Check:
     # ---------------------------------------------------------------- MC
     def mc(self, module, cfg=None, must_hold=True, **kw):
         """Model-check a bounded instance of the specification itself."""
+        if _EXPERIMENT and os.environ.get('VERIF_SKIP_MC'):
+            # sensitivity experiments on patched copies of the library: the bounded instances do not depend on the code
+            return {'ok': True, 'distinct': 0, 'states': 0, 'violated': None, 'out': '', 'wall': 0.0}
         res = tlc.model_check(module, cfg=cfg, **kw)
         self.states += res['distinct']
         self.transitions += res['states']
